@@ -160,8 +160,8 @@ dumper::dump_charp (std::ostream &os, char const *buf, size_t len, format fmt)
 	  {
 #define ESCAPE(L, E) case L: os << E; break
 
-	    ESCAPE (0, "\\0");
-	    ESCAPE ('"', "\\");
+	    ESCAPE ('"', "\\\"");
+	    ESCAPE ('%', "%%");
 	    ESCAPE ('\\', "\\\\");
 	    ESCAPE ('\a', "\\a");
 	    ESCAPE ('\b', "\\b");
@@ -174,12 +174,12 @@ dumper::dump_charp (std::ostream &os, char const *buf, size_t len, format fmt)
 #undef ESCAPE
 
 	  default:
-	    if (isprint (buf[i]))
+	    if (isprint ((unsigned char) buf[i]))
 	      os << buf[i];
 	    else
 	      {
 		ios_flag_saver ifs {os};
-		os << "\\x" << std::hex << std::setw (2)
+		os << "\\x" << std::hex << std::setfill ('0') << std::setw (2)
 		   << (unsigned) (unsigned char) buf[i];
 	      }
 	  }
